@@ -22,7 +22,9 @@ CAP = 20.0
 MAX_TIMEOUTS = 3
 
 FINDINGS = [
-    {'id': 'F-C02-1', 'property': 'C02', 'status': 'open',
+    # F-C02-1 and F-C02-4 were repaired in /repo (fix: commits); their witnesses stay as regression cases (status fixed: a
+    # failure of the witness, or a generated case carrying the tag, is reported as a violation by the framework)
+    {'id': 'F-C02-1', 'property': 'C02', 'status': 'fixed',
      'what': '`<![` not followed by `CDATA[` at a line start raises AssertionError from _markupbase (parse_marked_section/_scan_name)',
      'witness': {'text': '<![', 'extensions': [], 'output_format': 'xhtml'}},
     {'id': 'F-C02-2', 'property': 'C02', 'status': 'open',
@@ -32,6 +34,9 @@ FINDINGS = [
      'what': 'some hundred nested list levels (300-500 depending on the stack already in use; indented items, or markers repeated on one '
              'line `- - - x`) raise RecursionError (block quotes are guarded, lists are not)',
      'witness': {'build': 'nested_list_oneline', 'depth': 1500, 'extensions': [], 'output_format': 'xhtml'}},
+    {'id': 'F-C02-4', 'property': 'C02', 'status': 'fixed',
+     'what': "abbr: a definition with the title '' or \"\" (which removes an abbreviation) for a term that is not defined raises KeyError (dict.pop without default)",
+     'witness': {'text': "*[X]: ''\n\nX y", 'extensions': ['abbr'], 'output_format': 'xhtml'}},
 ]
 
 
@@ -95,23 +100,31 @@ _QUOTE = re.compile(r'>[ ]?')
 
 
 def _list_depth(text):
-    """deepest list nesting a line asks for: its indentation in tab stops plus the number of list markers it opens with
-    (`- - - x` nests on one line; `>` markers may be interleaved)"""
-    d = 0
+    """deepest PURE list nesting a line asks for: the longest run of list levels — a list marker, or four columns of
+    indentation (the continuation of an enclosing item) — that no block-quote marker interrupts.  `- - - x` nests three
+    lists on one line; in `> - > - x` every list level is followed by a quote level, whose processor checks the distance
+    to the recursion limit, so that nesting is NOT the F-C02-3 region however deep it is."""
+    best = 0
     for ln in text.expandtabs(4).split('\n'):
-        s = ln.lstrip(' ')
-        k = 0; i = 0
-        while True:
-            m = _MARKER.match(s, i)
+        i = 0; run = 0; n = len(ln)
+        while i < n:
+            if ln.startswith('    ', i):
+                run += 1; i += 4; continue
+            j = i
+            while j < n and ln[j] == ' ' and j - i < 3: j += 1
+            m = _MARKER.match(ln, j)
             if m:
-                k += 1; i = m.end(); continue
-            m = _QUOTE.match(s, i)
-            if m and m.end() > i:
-                i = m.end(); continue
+                run += 1; i = m.end()
+                if run > best: best = run
+                continue
+            m = _QUOTE.match(ln, j)
+            if m and m.end() > j:
+                run = 0; i = m.end(); continue
             break
-        if k:
-            d = max(d, (len(ln) - len(s)) // 4 + k)
-    return d
+    return best
+
+
+_ABBR_POP = re.compile(r'^[*]\[[^\\\]]*?\][ ]?:[ ]*\n?[ ]*(?:\'\'|"")[ ]*$', re.M)
 
 
 def classify(text, exts, detail):
@@ -125,11 +138,13 @@ def classify(text, exts, detail):
         return 'F-C02-2'
     if t == 'RecursionError' and _list_depth(text) > 60:
         return 'F-C02-3'
+    if t == 'KeyError' and ({'abbr', 'extra'} & set(exts)) and where and where[-1] == ('abbr.py', 'run') and _ABBR_POP.search(text):
+        return 'F-C02-4'
     return None
 
 
-KINDS = ['codepoints', 'soup', 'soup-ctrl', 'mutated', 'lines', 'long-run', 'deep', 'mixed', 'tiny']
-WEIGHTS = [13, 22, 8, 13, 11, 9, 9, 9, 10]
+KINDS = ['codepoints', 'soup', 'soup-ctrl', 'mutated', 'lines', 'long-run', 'deep', 'mixed', 'tiny', 'alternating', 'heading-html', 'md-in-html']
+WEIGHTS = [12, 19, 7, 12, 10, 9, 9, 8, 9, 6, 10, 9]
 # short strings over single markup characters: one-character lines, one-character underlines, fences with broken attribute
 # braces, empty labels — the inputs on which an index or a group of a regex is most easily out of range
 TINY = list('*_`[]()<>&\\#-+=!.:|{}~^"\'/;1a \n\n\n\t') + ['```', '~~~', '    ', '[^', ']:', '[a]:', '*[', '!!!', '{:', '}}', '<!', '</', '<?', '&#', '--', ': ', '||', '[[', ']]',
@@ -157,6 +172,12 @@ def gen_case(rng):
         text, sub = F.deep(rng); fam = 'deep:' + sub
     elif kind == 'tiny':
         text = ''.join(rng.choice(TINY) for _ in range(rng.randint(1, rng.choice([3, 5, 9]))))
+    elif kind == 'alternating':
+        text, fam = F.alternating(rng)
+    elif kind == 'heading-html':
+        text, fam = F.heading_html(rng)
+    elif kind == 'md-in-html':
+        text, fam = F.md_in_html_doc(rng)
     else:
         parts = [rng.choice([lambda: G.soup(rng, G.alphabet(html=True, amp=True, ext=True, ctrl=True), 1, 12),
                              lambda: F.codepoints(rng, 1, 30), lambda: G.fragment(rng, 80),
@@ -167,6 +188,11 @@ def gen_case(rng):
         exts = G.ext_subset(rng)
     else:
         exts = sorted(e for e in G.EXTENSIONS if rng.random() < rng.choice([0.15, 0.5, 0.85]))
+    # the families built around one extension get it in most of their cases (with any company), the bare subset otherwise
+    if kind == 'heading-html' and rng.random() < 0.85:
+        exts = sorted(set(exts) | {'toc'} | {e for e in F.TOC_FRIENDS if rng.random() < 0.25})
+    elif kind == 'md-in-html' and rng.random() < 0.85:
+        exts = sorted(set(exts) | {rng.choice(['md_in_html', 'md_in_html', 'extra'])})
     fmt = rng.choice(['xhtml', 'html'])
     return text, exts, fmt, fam
 
@@ -199,7 +225,7 @@ def search(driver, rng, n):
             break
         done += 1
         text, exts, fmt, fam = gen_case(rng)
-        k = fam.split(':')[0] if not fam.startswith('deep') else fam
+        k = fam.split(':')[0] if not fam.startswith(('deep', 'alternating')) else fam
         dist['kinds'][k] = dist['kinds'].get(k, 0) + 1
         dist['ext_count'][len(exts)] = dist['ext_count'].get(len(exts), 0) + 1
         dist['formats'][fmt] += 1
